@@ -1496,7 +1496,7 @@ CLAUSES = [
            min_share={'composed': 0.15, 'nt': 0.07, 'mixed_types': 0.2, 'units': 0.15, 'units_pos_default_atol': 0.14,
                       'units_datol_off_0.3': 0.04, 'hist_before': 0.05,
                       'ledger': 0.37, 'ledger_other': 0.13, 'mut_args': 0.1, 'mut_input': 0.1, 'argdt': 0.11, 'iddt': 0.045,
-                      'store_pos': 0.09, 'sym': 0.12, 'near_atol': 0.019, 'nearface': 0.028},
+                      'store_pos': 0.06, 'sym': 0.12, 'near_atol': 0.019, 'nearface': 0.028},
            desc='1-4 successive insertions; old_id composes to the first system; every intermediate input untouched'),
     Clause('combos', oracle_combos, enumerate=combo_cases, nontrivial='allok',
            min_share={'allok': 0.48, 'allok_single': 0.012, 'allok_pair': 0.027, 'allok_triple': 0.1, 'composed': 0.33, 'ledger': 0.46,
